@@ -25,6 +25,9 @@ class Ctx:
         self.fn_keys = []        # keys of functions under contract
         self.notes = []
         self.probe_fns = {}      # key -> dict(text=..., impl=...) used by the cover-probe generator
+        self.helper_requests = []  # (relpath, impl header or None, fn name) found by the driver
+        self.helpers = []
+        self.helper_rewrites = []
 
     # -- plain items (struct / enum / const / type) -------------------------------------------------
     def item(self, rel, path, derives=True, pub_fields=True, rewrites=(), keep_attrs=False, extra_derive=()):
@@ -52,6 +55,8 @@ class Ctx:
         e.strip_docs()
         e.inner_attrs()
         e.drop_log_macros()
+        e.replace_macro('anyhow', 'Error::msg()')
+        e.replace_macro('bail', 'return Err(Error::msg())')
         for rw in rewrites:
             e.rewrite(*rw) if isinstance(rw, tuple) else e.rewrite(**rw)
         for ins in inserts:
@@ -89,6 +94,8 @@ class Ctx:
         e.strip_docs()
         e.inner_attrs()
         e.drop_log_macros()
+        e.replace_macro('anyhow', 'Error::msg()')
+        e.replace_macro('bail', 'return Err(Error::msg())')
         t = e.text
         if t.count(anchor) != 1:
             raise AnchorLost('%s [%s]: lift anchor %r found %d times' % (rel, key, anchor, t.count(anchor)))
@@ -147,6 +154,29 @@ class Ctx:
         self.probe_fns[key] = dict(sig=e.sig_final, body=e.body_final, requires=_only_requires(spec), attrs='')
         return ('// ---- extracted: %s :: %s (lines %d-%d, sha256 %s) -- LIFTED %s\n%s\n'
                 % (rel, path, e.span[0], e.span[1], e.sha256[:16], kind, marked))
+
+    # -- helpers introduced by an edit (auto-included, no contract) -----------------------------------------
+    def helpers_here(self):
+        """place for functions the unit does not name but the extracted code calls (found by the driver after a failed
+        compile).  They are copied with the standard rule pipeline and NO contract: Kani simply executes them; for Verus a
+        caller that depends on one cannot be proved and its failure is reported as undecided, never as a violation."""
+        out = ['// @HELPERS (auto-included callees; none on the pinned tree)']
+        for (rel, impl_hdr, name) in self.helper_requests:
+            path = ('impl %s :: fn %s' % (impl_hdr, name)) if impl_hdr else ('fn %s' % name)
+            e = extract(self.repo, rel, path, key='helper:' + name)
+            e.strip_docs(); e.inner_attrs(); e.drop_log_macros()
+            e.replace_macro('anyhow', 'Error::msg()'); e.replace_macro('bail', 'return Err(Error::msg())')
+            for rw in self.helper_rewrites:
+                e.rewrite(**dict(rw, optional=True))
+            e.make_pub()
+            e.log('AUTO', 'helper auto-included without contract')
+            self.extracted.append(e)
+            self.helpers.append(name)
+            txt = '// ---- auto-included helper: %s :: %s\n%s\n' % (rel, path, e.text)
+            if impl_hdr:
+                txt = 'impl %s {\n%s}\n' % (impl_hdr, txt)
+            out.append(txt)
+        return '\n'.join(out) + '\n'
 
     def note(self, s):
         self.notes.append(s)
